@@ -1,15 +1,10 @@
-use breakpad_symbols::*;
+use minidump::*;
 fn main() {
-    let base = reqwest::Url::parse("https://symbols.example.org/symbols/").unwrap();
-    for name in ["https:evil", "%2e%2e", "%2E%2e", ".%2e", "a%2fb", "https://evil.com/x", "javascript:x", "//evil.com", "\\\\evil.com", "x:y", "ab:cd", "?q", "#f", "a?b"] {
-        let id: debugid::DebugId = "07070707-0707-0707-0707-070707070707-3".parse().unwrap();
-        let m = SimpleModule::from_basic_info(Some(name.into()), Some(id), Some(name.into()), None);
-        match breakpad_sym_lookup(&m) {
-            Some(l) => {
-                let j = base.join(&l.server_rel);
-                println!("{name:?}: server_rel={:?} joined={:?}", l.server_rel, j.map(|u| u.to_string()));
-            }
-            None => println!("{name:?}: no lookup"),
-        }
+    for (name, bytes) in vh::seeds::synthetic_seeds() {
+        if !name.starts_with("linux-blank") { continue; }
+        let d = Minidump::read(&bytes[..]).expect("read");
+        println!("{name}: lsb={:?}", d.get_stream::<MinidumpLinuxLsbRelease>().map(|s| s.iter().map(|(k,v)| (k.to_string_lossy().to_string(), v.to_string_lossy().to_string())).collect::<Vec<_>>()));
+        println!("{name}: cpu={:?}", d.get_stream::<MinidumpLinuxCpuInfo>().map(|s| s.iter().map(|(k,v)| (k.to_string_lossy().to_string(), v.to_string_lossy().to_string())).collect::<Vec<_>>()));
+        println!("{name}: status={:?}", d.get_stream::<MinidumpLinuxProcStatus>().map(|s| s.iter().map(|(k,v)| (k.to_string_lossy().to_string(), v.to_string_lossy().to_string())).collect::<Vec<_>>()));
     }
 }
